@@ -1,22 +1,33 @@
 """C14 - module identity follows dotted-name boundaries, never raw string prefixes.
 
-  C14.R1  every string-relational operation whose tested string is module-name-typed uses a boundary-safe idiom (F-NAME lint)
-  C14.R2  the functions that cut names (ancestors, level flattening) cut at '.' only
-  C14.R3  sub-module sets come from hierarchy edges (the sub-module search follows hierarchy edges only)
+  C14.R1  every string-relational operation whose tested string is module-name-typed uses a boundary-safe idiom (F-NAME lint,
+          sites of group "relation": prefix / suffix / substring / regex / replace / slice-by-length / slice-by-index)
+  C14.R2  names are cut and re-assembled at '.' only (F-NAME lint, sites of group "separator": split / partition / find with a
+          constant, join of components, characters of a name compared with a constant). The name-cutting functions are found by
+          role: whatever is reachable from the public `get_parent_modules` and from the constructor of the public `NetworkxGraph`
+          (level flattening) must contain at least one such cut - wherever it lives and whatever it is called.
+  C14.R3  sub-module sets come from hierarchy edges (the sub-module search follows hierarchy edges only; search model of C01)
 """
 
 from __future__ import annotations
 
-import ast
-
-from core.loader import AnalysisError, Repo, norm, own_nodes, parent
+from core.loader import AnalysisError, Repo, norm
 from core.report import Result
 
-from . import c01, names
-from .common import stmt_of, where
+from . import names
+
+try:  # the search model (owned by the C01 / search rules)
+    from .searchrules import run_search
+except ImportError:  # pragma: no cover - older layout
+    from .c01 import run_search
+from .common import reachable_funcs, stmt_of, where
 
 TYPES_MOD = "pytestarch.eval_structure.types"
 NXGRAPH = "pytestarch.eval_structure.networkxgraph"
+
+# sites of these groups are not a matter of C14 (component-wise comparison that respects boundaries but not the extent: C10)
+FOREIGN_GROUPS = {"extent"}
+CUT_OPS = {"split", "rsplit", "partition", "rpartition", "join", "char-compare", "slice-by-index", "find", "rfind", "index", "rindex", "count"}
 
 
 def add_sites(repo: Repo, res: Result, rule: str, sites, only=None) -> int:
@@ -34,42 +45,94 @@ def add_sites(repo: Repo, res: Result, rule: str, sites, only=None) -> int:
             res.undecide(rule, key, s.why, where(s.fi, s.node))
         elif s.verdict == "unclassified":
             res.observe(f"{rule} unclassified (not armed) {s.fi.relpath}::{s.fi.qualname}: `{norm(s.node, 60)}` - {s.why}")
+        elif s.verdict == "not-name" and s.name_typed:
+            res.observe(f"{rule} lexical test on a name (not armed) {s.fi.relpath}::{s.fi.qualname}: `{norm(s.node, 60)}` - {s.why}")
     return n
+
+
+def _group(s) -> str:
+    return getattr(s, "group", "relation")
 
 
 def run(repo: Repo) -> Result:
     res = Result("C14")
     res.explanation = (
         "Decides a necessary condition of renaming invariance for all names: every startswith / endswith / in / find / replace / regex / "
-        "slice-by-length operation whose tested string derives from a module name (provenance computed by the flow engine, not from variable "
-        "names) uses an idiom that compares whole dotted components; the name-cutting helpers cut at '.' only; sub-module sets come from "
-        "hierarchy edges. A raw prefix/substring test is wrong for every pair of prefix-related siblings, whatever the fixture names are."
+        "slice-by-length / slice-by-index operation whose tested string derives from a module name (provenance computed by the flow engine, "
+        "not from variable names) uses an idiom that compares whole dotted components; names are split, searched, walked and re-joined at "
+        "'.' only; sub-module sets come from hierarchy edges. A raw prefix/substring test is wrong for every pair of prefix-related "
+        "siblings, whatever the fixture names are."
     )
     res.not_decided = "invariance under renaming as a relation between two runs; regex specifications (excluded by the property)."
     res.trusted_base = ["engine flow analysis (provenance of module names)", "accepted boundary-safe idioms listed in rules/names.py"]
     sites = names.scan(repo)
-    n = add_sites(repo, res, "C14.R1", sites)
+    n1 = add_sites(repo, res, "C14.R1", sites, only=lambda s: _group(s) == "relation")
+    n2 = add_sites(repo, res, "C14.R2", sites, only=lambda s: _group(s) == "separator")
+    for s in sites:
+        if _group(s) in FOREIGN_GROUPS and s.name_typed:
+            res.observe(f"C14 not armed ({_group(s)}, decided by C10) {s.fi.relpath}::{s.fi.qualname}: `{norm(s.node, 60)}` - {s.verdict}: {s.why}")
     # the expected number of unsafe sites is zero and a refactoring may legitimately remove every string operation on names:
     # the positive fixture (all accepted and all rejected idioms) shows on every run that the lint still bites
-    res.add("C14.R1", "fixture::engine/fixtures/name_ops.py", True, names.fixture_selfcheck(), nontrivial=False)
+    fx = names.fixture_selfcheck()
+    res.add("C14.R1", "fixture::engine/fixtures/name_ops.py", True, fx, nontrivial=False)
+    res.add("C14.R2", "fixture::engine/fixtures/name_ops.py", True, fx, nontrivial=False)
     res.analysed["string_relational_sites"] = len(sites)
     res.analysed["name_typed_sites"] = sum(1 for s in sites if s.name_typed)
-    # R2: separators
-    gpm = repo.func(TYPES_MOD, "get_parent_modules")
-    consts = [c for c in ast.walk(gpm.node) if isinstance(c, ast.Constant) and isinstance(c.value, str) and not isinstance(parent(c), ast.Expr)]
-    seps = sorted({c.value for c in consts if c.value != ""})
-    res.add("C14.R2", f"{gpm.relpath}::get_parent_modules::separator", seps == ["."], "ancestors are cut at '.' only" if seps == ["."] else f"get_parent_modules cuts at {seps}", where(gpm, gpm.node), kind="structural")
-    fl = repo.func(NXGRAPH, "NetworkxGraph._flatten_graph_node")
-    splits = [c for c in ast.walk(fl.node) if isinstance(c, ast.Call) and isinstance(c.func, ast.Attribute) and c.func.attr in ("split", "rsplit", "join", "partition")]
-    ok = bool(splits) and all((c.args and isinstance(c.args[0], ast.Constant) and c.args[0].value == ".") or (isinstance(c.func.value, ast.Constant) and c.func.value.value == ".") for c in splits)
-    res.add("C14.R2", f"{fl.relpath}::{fl.qualname}::separator", ok, "level flattening splits and joins at '.' only" if ok else "level flattening does not split/join at '.' only", where(fl, fl.node), kind="structural")
-    # R3: hierarchy-based sub-module sets
+    res.analysed["relation_sites"] = n1
+    res.analysed["separator_sites"] = n2
+    # R2, by role: the two places where the library itself cuts names must be visible to the lint
+    gpm = repo.find_func(TYPES_MOD, "get_parent_modules")
+    gpm_reach: set[str] = set()
+    if gpm is None:
+        res.undecide("C14.R2", f"{TYPES_MOD}::get_parent_modules", "the public function computing the ancestors of a name was not found")
+    else:
+        gpm_reach = {f.fq for f in reachable_funcs(repo, [gpm], byname=False)} | {gpm.fq}
+        _role(repo, res, sites, "ancestors of a name (get_parent_modules)", gpm, gpm_reach)
+    # level flattening happens somewhere between the public entry point (keyword `level_limit`) and the graph that is built
+    g = repo.classes.get(f"{NXGRAPH}.NetworkxGraph") or next((c for c in repo.classes.values() if c.name == "NetworkxGraph"), None)
+    init = [g.methods["__init__"]] if g is not None and "__init__" in g.methods else []
+    entries = [f for f in repo.all_functions() if f.module.name == "pytestarch.pytestarch" and f.cls is None and f.outer is None and f.name.startswith("get_evaluable_architecture")]
+    if not init and not entries:
+        res.undecide("C14.R2", f"{NXGRAPH}::NetworkxGraph.__init__", "neither the constructor of the public graph class nor the public entry points were found")
+    else:
+        role = "level flattening (between get_evaluable_architecture / NetworkxGraph.__init__ and the graph)"
+        near = ({f.fq for f in reachable_funcs(repo, init, byname=False)} | {r.fq for r in init}) - gpm_reach
+        if any(s.name_typed and s.op in CUT_OPS and _top(s.fi).fq in near for s in sites) or not entries:
+            _role(repo, res, sites, role, (init or entries)[0], near)
+        else:  # flattening moved out of the graph class: anywhere on the way from the public entry points
+            far = ({f.fq for f in reachable_funcs(repo, entries, byname=False)} | {r.fq for r in entries}) - gpm_reach
+            _role(repo, res, sites, role, entries[0], far)
+    # R3: hierarchy-based sub-module sets (search model, owned by C01)
     tmp = Result("C01")
-    c01.run_search(repo, tmp)
-    k = 0
-    for o in tmp.obligations:
-        if "get_all_submodules_of" in o.construct:
-            k += 1
-            res.add("C14.R3", o.construct, o.ok, o.detail, o.where, o.nontrivial, o.kind)
-    res.floor("C14.R3", 2, k)
+    try:
+        run_search(repo, tmp)
+        k = 0
+        for o in tmp.obligations:
+            if "get_all_submodules_of" in o.construct:
+                k += 1
+                res.add("C14.R3", o.construct, o.ok, o.detail, o.where, o.nontrivial, o.kind)
+        for u in tmp.undecided:
+            if "get_all_submodules_of" in u.get("construct", ""):
+                res.undecide("C14.R3", u["construct"], u["detail"], u.get("where", ""))
+        if k < 2 and not any(u["rule"] == "C14.R3" for u in res.undecided):
+            res.undecide("C14.R3", "get_all_submodules_of", f"only {k} obligation(s) of the search model concern the sub-module search (2 expected)")
+    except AnalysisError as e:
+        res.undecide("C14.R3", "search model", f"the search model (rules/c01.run_search) gave no verdict: {e}")
     return res
+
+
+def _role(repo: Repo, res: Result, sites, role: str, anchor, reach: set[str]) -> None:
+    # nested callables of reachable functions belong to them
+    cuts = [s for s in sites if s.name_typed and s.op in CUT_OPS and _top(s.fi).fq in reach]
+    key = f"{anchor.relpath}::{anchor.qualname}::{role}"
+    if cuts:
+        bad = [s for s in cuts if s.verdict == "unsafe"]
+        res.add("C14.R2", key, not bad, f"{len(cuts)} cut(s) of names found by role, all at '.'" if not bad else f"{norm(bad[0].node, 60)}: {bad[0].why}", where(anchor, anchor.node), kind="structural")
+    else:
+        res.undecide("C14.R2", key, "no operation that cuts a name (split / partition / find / join / character loop / slice) was recognised in the functions of this role")
+
+
+def _top(fi):
+    while fi.outer is not None:
+        fi = fi.outer
+    return fi
